@@ -53,3 +53,93 @@ Example C06_example :
   num_carrier (VInt KUint64 true 18446744073709551615) (mkDec 18446744073709551615 0) /\
   convert_number (VPtr (Some (VInt KUint64 false 9223372036854775808))) = VDec (mkDec 9223372036854775808 0).
 Proof. split; [constructor|reflexivity]. Qed.
+
+(** the remaining positions of the property (Proofs/C06b.v): a key stepped
+    across an array of objects (maps or structs, any slice/array carrier, rows
+    lacking the key skipped), Index, a function receiver after a key (composed
+    with C04's exact addition as a check), one level of pointer, interface
+    slots.  [direct_number] restricts the pointer theorems to pointers to the
+    built-in numeric kinds: a *decimal.Decimal is the subject of
+    [C06_pointer_to_decimal] below. *)
+From Mpath.Proofs Require C17 C06b.
+Import Mpath.Proofs.C17 Mpath.Proofs.C06b.
+
+Theorem C06_across_array :
+  forall (k : str) (t : ety) (xs gs : list gv) (ds : list dec), xs <> [] -> Forall2 (obj_row k) xs gs -> Forall2 num_carrier gs ds -> (forall n : bool, do_ident k (VSlice t n xs) = Ok (VSlice EAny false (map VDec ds))) /\ do_ident k (VArray t xs) = Ok (VSlice EAny false (map VDec ds)) /\ Forall2 same_value gs ds.
+Proof. exact Mpath.Proofs.C06b.C06b_across_array. Qed.
+Print Assumptions C06_across_array.
+
+Theorem C06_across_array_some :
+  forall (k : str) (t : ety) (xs gs : list gv) (ds : list dec), rows_proj k xs gs -> Forall2 num_carrier gs ds -> gs <> [] -> (forall n : bool, do_ident k (VSlice t n xs) = Ok (VSlice EAny false (map VDec ds))) /\ do_ident k (VArray t xs) = Ok (VSlice EAny false (map VDec ds)) /\ Forall2 same_value gs ds.
+Proof. exact Mpath.Proofs.C06b.C06b_across_array_some. Qed.
+Print Assumptions C06_across_array_some.
+
+Theorem C06_across_array_none :
+  forall (k : str) (t : ety) (xs : list gv), rows_proj k xs [] -> (forall n : bool, do_ident k (VSlice t n xs) = Err EKeyNotFound) /\ do_ident k (VArray t xs) = Err EKeyNotFound.
+Proof. exact Mpath.Proofs.C06b.C06b_across_array_none. Qed.
+Print Assumptions C06_across_array_none.
+
+Theorem C06_index :
+  forall (eng : engines) (t : ety) (xs : list gv) (p : dec) (i : nat) (g : gv) (d : dec), Strings.denotes_nat p i -> nth_error xs i = Some g -> num_carrier g d -> Z.of_nat (Datatypes.length xs) < 2 ^ 63 -> (forall n : bool, run_func eng "Index" [RNum p] (VSlice t n xs) = Ok (VDec d)) /\ run_func eng "Index" [RNum p] (VArray t xs) = Ok (VDec d) /\ same_value g d.
+Proof. exact Mpath.Proofs.C06b.C06b_index. Qed.
+Print Assumptions C06_index.
+
+Theorem C06_index_elems :
+  forall (eng : engines) (cur : gv) (xs : list gv) (p : dec) (i : nat) (g : gv) (d : dec), elems cur = Some xs -> Strings.denotes_nat p i -> nth_error xs i = Some g -> num_carrier g d -> Z.of_nat (Datatypes.length xs) < 2 ^ 63 -> run_func eng "Index" [RNum p] cur = Ok (VDec d).
+Proof. exact Mpath.Proofs.C06b.C06b_index_elems. Qed.
+Print Assumptions C06_index_elems.
+
+Theorem C06_first_last_elems :
+  forall (eng : engines) (cur g : gv) (xs : list gv) (d : dec), num_carrier g d -> (elems cur = Some (g :: xs) -> run_func eng "First" [] cur = Ok (VDec d)) /\ (elems cur = Some (xs ++ [g]) -> run_func eng "Last" [] cur = Ok (VDec d)).
+Proof. exact Mpath.Proofs.C06b.C06b_first_last_elems. Qed.
+Print Assumptions C06_first_last_elems.
+
+Theorem C06_function_receiver :
+  forall (uni : uclass) (eng : engines) (fuel : nat) (inv me : bool) (k u1 u2 u3 : str) (finv : bool) (name : string) (ps : list param) (kt : kty) (vt : ety) (isnil : bool) (kvs : list (gv * gv)) (g : gv) (d : dec), map_lookup_fold k kvs = Some g -> num_carrier g d -> plain_function name = true -> eval uni eng (S (S (S fuel))) (NPath (Path inv true false me [PIdent k false u1; PFunc (Func finv (bs name) ps u2)] u3)) (VMap kt vt isnil kvs) (VMap kt vt isnil kvs) = (do rt <- eval_params (fun m : node => eval uni eng fuel m (VDec d) (VMap kt vt isnil kvs)) ps; run_func eng name rt (VDec d)).
+Proof. exact Mpath.Proofs.C06b.C06b_function_receiver. Qed.
+Print Assumptions C06_function_receiver.
+
+Theorem C06_function_receiver_struct :
+  forall (uni : uclass) (eng : engines) (fuel : nat) (inv me : bool) (k u1 u2 u3 : str) (finv : bool) (name : string) (ps : list param) (fs : list (str * bool * bool * gv)) (g : gv) (d : dec), struct_lookup_fold k fs = Some g -> num_carrier g d -> plain_function name = true -> eval uni eng (S (S (S fuel))) (NPath (Path inv true false me [PIdent k false u1; PFunc (Func finv (bs name) ps u2)] u3)) (VStruct fs) (VStruct fs) = (do rt <- eval_params (fun m : node => eval uni eng fuel m (VDec d) (VStruct fs)) ps; run_func eng name rt (VDec d)).
+Proof. exact Mpath.Proofs.C06b.C06b_function_receiver_struct. Qed.
+Print Assumptions C06_function_receiver_struct.
+
+Theorem C06_add_fields :
+  forall (uni : uclass) (eng : engines) (fuel : nat) (inv me : bool) (u1 u2 u3 : str) (finv pinv pme : bool) (pu1 pu2 a b : str) (kt : kty) (vt : ety) (isnil : bool) (kvs : list (gv * gv)) (ga gb : gv) (da db : dec) (qa qb : Q), map_lookup_fold a kvs = Some ga -> map_lookup_fold b kvs = Some gb -> num_carrier ga da -> num_carrier gb db -> source_value ga = Some qa -> source_value gb = Some qb -> exists r : dec, eval uni eng (S (S (S (S (S fuel))))) (NPath (Path inv true false me [PIdent a false u1; PFunc (Func finv (bs "Add") [FPPath (Path pinv true false pme [PIdent b false pu1] pu2)] u2)] u3)) (VMap kt vt isnil kvs) (VMap kt vt isnil kvs) = Ok (VDec r) /\ dval r == qa + qb.
+Proof. exact Mpath.Proofs.C06b.C06b_add_fields. Qed.
+Print Assumptions C06_add_fields.
+
+Theorem C06_pointer_and_interface :
+  forall (g : gv) (d : dec), num_carrier g d -> direct_number g -> same_value (ptr_to g) d /\ source_value (ptr_to g) = source_value g /\ (forall (uni : uclass) (eng : engines) (fuel : nat) (inv me : bool) (us : str), eval uni eng (S fuel) (NPath (Path inv true false me [] us)) (ptr_to g) (ptr_to g) = Ok (VDec d)) /\ (forall (k : str) (kt : kty) (vt : ety) (isnil : bool) (kvs : list (gv * gv)), map_lookup_fold k kvs = Some (ptr_to g) -> do_ident k (VMap kt vt isnil kvs) = Ok (VDec d)) /\ (forall (k : str) (fs : list (str * bool * bool * gv)), struct_lookup_fold k fs = Some (ptr_to g) -> do_ident k (VStruct fs) = Ok (VDec d)) /\ (forall (eng : engines) (cur : gv) (xs : list gv), elems cur = Some (ptr_to g :: xs) -> run_func eng "First" [] cur = Ok (VDec d)) /\ (forall (eng : engines) (cur : gv) (xs : list gv), elems cur = Some (xs ++ [ptr_to g]) -> run_func eng "Last" [] cur = Ok (VDec d)) /\ (forall (eng : engines) (cur : gv) (xs : list gv) (p : dec) (i : nat), elems cur = Some xs -> Strings.denotes_nat p i -> nth_error xs i = Some (ptr_to g) -> Z.of_nat (Datatypes.length xs) < 2 ^ 63 -> run_func eng "Index" [RNum p] cur = Ok (VDec d)) /\ (forall (uni : uclass) (eng : engines) (fuel : nat) (inv me : bool) (k u1 u2 u3 : str) (finv : bool) (name : string) (ps : list param) (kt : kty) (vt : ety) (isnil : bool) (kvs : list (gv * gv)), map_lookup_fold k kvs = Some (ptr_to g) -> plain_function name = true -> eval uni eng (S (S (S fuel))) (NPath (Path inv true false me [PIdent k false u1; PFunc (Func finv (bs name) ps u2)] u3)) (VMap kt vt isnil kvs) (VMap kt vt isnil kvs) = (do rt <- eval_params (fun m : node => eval uni eng fuel m (VDec d) (VMap kt vt isnil kvs)) ps; run_func eng name rt (VDec d))).
+Proof. exact Mpath.Proofs.C06b.C06b_pointer_and_interface. Qed.
+Print Assumptions C06_pointer_and_interface.
+
+Theorem C06_pointer_across_array :
+  forall (k : str) (t : ety) (xs gs : list gv) (ds : list dec), xs <> [] -> Forall2 (obj_row k) xs (map ptr_to gs) -> Forall2 num_carrier gs ds -> Forall direct_number gs -> (forall n : bool, do_ident k (VSlice t n xs) = Ok (VSlice EAny false (map VDec ds))) /\ do_ident k (VArray t xs) = Ok (VSlice EAny false (map VDec ds)) /\ Forall2 same_value (map ptr_to gs) ds.
+Proof. exact Mpath.Proofs.C06b.C06b_pointer_across_array. Qed.
+Print Assumptions C06_pointer_across_array.
+
+Theorem C06_interface_slots :
+  forall (eng : engines) (g : gv) (d : dec), num_carrier g d -> (forall (n : bool) (rest : list gv), run_func eng "First" [] (VSlice EAny n (g :: rest)) = Ok (VDec d)) /\ (forall rest : list gv, run_func eng "First" [] (VArray EAny (g :: rest)) = Ok (VDec d)) /\ (forall (n : bool) (pre : list gv), run_func eng "Last" [] (VSlice EAny n (pre ++ [g])) = Ok (VDec d)) /\ (forall pre : list gv, run_func eng "Last" [] (VArray EAny (pre ++ [g])) = Ok (VDec d)) /\ (forall (n : bool) (xs : list gv) (p : dec) (i : nat), Strings.denotes_nat p i -> nth_error xs i = Some g -> Z.of_nat (Datatypes.length xs) < 2 ^ 63 -> run_func eng "Index" [RNum p] (VSlice EAny n xs) = Ok (VDec d) /\ run_func eng "Index" [RNum p] (VArray EAny xs) = Ok (VDec d)) /\ (direct_number g -> forall (n : bool) (rest : list gv), run_func eng "First" [] (VSlice EAny n (ptr_to g :: rest)) = Ok (VDec d)) /\ (forall (k : str) (x : gv) (n : bool), obj_row k x g -> do_ident k (VSlice EAny n [x]) = Ok (VSlice EAny false [VDec d])).
+Proof. exact Mpath.Proofs.C06b.C06b_interface_slots. Qed.
+Print Assumptions C06_interface_slots.
+
+Theorem C06_pointer_to_decimal :
+  forall d : dec, convert_number (VPtr (Some (VDec d))) = VDec d /\ convert_unless_string (VPtr (Some (VDec d))) = VDec d.
+Proof. exact Mpath.Proofs.C06b.C06b_pointer_to_decimal. Qed.
+Print Assumptions C06_pointer_to_decimal.
+
+Theorem C06_pointer_to_decimal_positions :
+  forall d : dec, (forall (uni : uclass) (eng : engines) (fuel : nat) (inv me : bool) (us : str), eval uni eng (S fuel) (NPath (Path inv true false me [] us)) (ptr_to (VDec d)) (ptr_to (VDec d)) = Ok (VDec d)) /\ (forall (k : str) (kt : kty) (vt : ety) (isnil : bool) (kvs : list (gv * gv)), map_lookup_fold k kvs = Some (ptr_to (VDec d)) -> do_ident k (VMap kt vt isnil kvs) = Ok (VDec d)) /\ (forall (k : str) (fs : list (str * bool * bool * gv)), struct_lookup_fold k fs = Some (ptr_to (VDec d)) -> do_ident k (VStruct fs) = Ok (VDec d)) /\ (forall (eng : engines) (cur : gv) (xs : list gv), elems cur = Some (ptr_to (VDec d) :: xs) -> run_func eng "First" [] cur = Ok (VDec d)) /\ (forall (eng : engines) (cur : gv) (xs : list gv), elems cur = Some (xs ++ [ptr_to (VDec d)]) -> run_func eng "Last" [] cur = Ok (VDec d)) /\ (forall (eng : engines) (cur : gv) (xs : list gv) (p : dec) (i : nat), elems cur = Some xs -> Strings.denotes_nat p i -> nth_error xs i = Some (ptr_to (VDec d)) -> Z.of_nat (Datatypes.length xs) < 2 ^ 63 -> run_func eng "Index" [RNum p] cur = Ok (VDec d)) /\ (forall (uni : uclass) (eng : engines) (fuel : nat) (inv me : bool) (k u1 u2 u3 : str) (finv : bool) (name : string) (ps : list param) (kt : kty) (vt : ety) (isnil : bool) (kvs : list (gv * gv)), map_lookup_fold k kvs = Some (ptr_to (VDec d)) -> plain_function name = true -> eval uni eng (S (S (S fuel))) (NPath (Path inv true false me [PIdent k false u1; PFunc (Func finv (bs name) ps u2)] u3)) (VMap kt vt isnil kvs) (VMap kt vt isnil kvs) = (do rt <- eval_params (fun m : node => eval uni eng fuel m (VDec d) (VMap kt vt isnil kvs)) ps; run_func eng name rt (VDec d))) /\ (forall (uni : uclass) (eng : engines) (fuel : nat) (inv me : bool) (k u1 u2 u3 : str) (finv : bool) (name : string) (ps : list param) (fs : list (str * bool * bool * gv)), struct_lookup_fold k fs = Some (ptr_to (VDec d)) -> plain_function name = true -> eval uni eng (S (S (S fuel))) (NPath (Path inv true false me [PIdent k false u1; PFunc (Func finv (bs name) ps u2)] u3)) (VStruct fs) (VStruct fs) = (do rt <- eval_params (fun m : node => eval uni eng fuel m (VDec d) (VStruct fs)) ps; run_func eng name rt (VDec d))).
+Proof. exact Mpath.Proofs.C06b.C06b_pointer_to_decimal_positions. Qed.
+Print Assumptions C06_pointer_to_decimal_positions.
+
+Theorem C06_pointer_to_decimal_across_array :
+  forall (k : str) (t : ety) (xs : list gv) (ds : list dec), xs <> [] -> Forall2 (obj_row k) xs (map ptr_to (map VDec ds)) -> (forall n : bool, do_ident k (VSlice t n xs) = Ok (VSlice EAny false (map VDec ds))) /\ do_ident k (VArray t xs) = Ok (VSlice EAny false (map VDec ds)).
+Proof. exact Mpath.Proofs.C06b.C06b_pointer_to_decimal_across_array. Qed.
+Print Assumptions C06_pointer_to_decimal_across_array.
+
+Theorem C06_across_array_converts :
+  forall (k : str) (t : ety) (xs gs : list gv) (ds : list dec), rows_proj k xs gs -> Forall2 converts gs ds -> gs <> [] -> (forall n : bool, do_ident k (VSlice t n xs) = Ok (VSlice EAny false (map VDec ds))) /\ do_ident k (VArray t xs) = Ok (VSlice EAny false (map VDec ds)).
+Proof. exact Mpath.Proofs.C06b.C06b_across_array_converts. Qed.
+Print Assumptions C06_across_array_converts.
